@@ -22,7 +22,7 @@ def work(wtname, es):
         os.makedirs(d, exist_ok=True)
         subprocess.run(['cp', patch, f'{d}/patch.diff']); subprocess.run(['cp', demo, f'{d}/demo.cpp'])
         notes = open(f'{wt}/mutation/NOTES.md').read()[:6000] if os.path.exists(f'{wt}/mutation/NOTES.md') else ''
-        meta = {"id": sid, "breaks_property": prop, "needs_to_manifest": needs, "wave": 2, "confirmed": conf, "checks": run, "author_notes": notes}
+        meta = {"id": sid, "breaks_property": prop, "needs_to_manifest": needs, "wave": int(os.environ.get("SEED_WAVE", "0")) or int("".join(ch for ch in os.path.basename(sys.argv[1]) if ch.isdigit()) or 2), "confirmed": conf, "checks": run, "author_notes": notes}
         json.dump(meta, open(f'{d}/meta.json', 'w'), indent=1)
         with lock:
             print("KEPT", sid, {p: (v['exit'], any('no-failing' in l for l in v['lines'])) for p, v in (run or {}).items()},
